@@ -120,7 +120,7 @@ pub fn limited_strategy(tier: Tier) -> BoxedStrategy<MultiCase> {
         .prop_map(|((cols, hz, step_ms, burn), ops)| {
             let mut all = vec![];
             if burn {
-                let leave = BarSpec { two_lines: false, len: Some(5), on_finish: 0, msg: String::new(), key_nl: false };
+                let leave = BarSpec { two_lines: false, len: Some(5), on_finish: 0, msg: String::new(), key_nl: false, blank_first: 0 };
                 all.push(MOp::Add(leave));
                 all.extend(std::iter::repeat(MOp::Tick(0)).take(22));
             }
